@@ -361,6 +361,7 @@ class RawVoltageBackend(object):
             except BaseException as err:
                 tqdm(f'Could not parse DIRECTIO value `{header_dict["DIRECTIO"]}` ({repr(err)}). Replacing with `0`.')
                 header_dict['DIRECTIO'] = 0
+                directio = False
 
         # Write each line with space and zero padding
         header_lines = 0
@@ -375,9 +376,9 @@ class RawVoltageBackend(object):
         f.write(f"{'END':<80}".encode())
         header_lines += 1
 
-        # Pad header if directio
+        # Pad header up to the next multiple of 512 if directio (nothing if already aligned)
         if directio:
-            f.write(bytearray(512 - (80 * header_lines % 512))) 
+            f.write(bytearray(-(80 * header_lines) % 512))
 
         header_dict['PKTIDX'] += self.samples_per_block
 
